@@ -202,6 +202,8 @@ structure State where
   lastWriteTime : Nat
   writeCount : Nat
   displayedStep : Option Nat
+  /-- `_displayed_max`: the maximum shown by the frame on the line (repair of D18b) -/
+  displayedMax : Option Nat
   startTime : Nat
   /-- the section's `_content` (lines; the `"\n"` entries are implicit) and `_lines` -/
   secContent : List Str
@@ -215,7 +217,7 @@ def init (m : Int) (t : Nat) : State :=
   let mx := (Max.max 0 m).toNat
   { step := 0, max := mx, stepWidth := stepWidthOf mx, percent := ⟨0, 1⟩, format := none,
     formatLineCount := 0, messages := [], lastLen := 0, lastWriteTime := 0, writeCount := 0,
-    displayedStep := none, startTime := t, secContent := [], secLines := 0 }
+    displayedStep := none, displayedMax := none, startTime := t, secContent := [], secLines := 0 }
 
 /-! ## Format selection -/
 
@@ -441,7 +443,7 @@ def overwrite (c : Config) (s : State) (t : Nat) (message : Str) : State × List
     | .section => secWrite c s1 text
     | _ => (s1, emit c text)
   ({ s2 with lastLen := maxLen lines, lastWriteTime := t, writeCount := s2.writeCount + 1,
-             displayedStep := some s2.step }, w1 ++ w2)
+             displayedStep := some s2.step, displayedMax := some s2.max }, w1 ++ w2)
 
 /-! ## Frames, results, operations -/
 
@@ -506,11 +508,19 @@ def setProgress (c : Config) (s : State) (t : Nat) (k : Int) : Res :=
   | .atMax | .draw => display c s1 t
   | .throttled | .skip => ⟨s1, [], none, none⟩
 
-/-- `finish()` (with the D18 repair) -/
-def finish (c : Config) (s : State) (t : Nat) : Res :=
+/-- `finish()` with the D18 repair; `cmpMax` says whether the skip-the-redraw guard also demands
+`self._displayed_max == self._max` (the D18b repair) -/
+def finishWith (cmpMax : Bool) (c : Config) (s : State) (t : Nat) : Res :=
   let s1 := if s.max = 0 then { s with max := s.step } else s
-  if s1.step = s1.max ∧ c.overwrite = false ∧ s1.displayedStep = some s1.step then ⟨s1, [], none, none⟩
+  if s1.step = s1.max ∧ c.overwrite = false ∧ s1.displayedStep = some s1.step ∧
+      (cmpMax = true → s1.displayedMax = some s1.max) then ⟨s1, [], none, none⟩
   else setProgress c s1 t (s1.max : Int)
+
+/-- `finish()` as the current source has it (the guard is read from the source on every run) -/
+def finish (c : Config) (s : State) (t : Nat) : Res := finishWith Gen.C16.finishComparesDisplayedMax c s t
+
+/-- `finish()` before the D18b repair -/
+def finishOld (c : Config) (s : State) (t : Nat) : Res := finishWith false c s t
 
 /-- `start(max)` -/
 def start (c : Config) (s : State) (t : Nat) (m : Option Int) : Res :=
